@@ -437,6 +437,26 @@ CHECKS["C09"]["rule"] += (" Deep-rejection leg: one sampler call whose first 10^
                           "in child processes (main thread and a 2 MiB spawned thread), on the release build and on the dev0 profile (the crate compiled "
                           "at opt-level 0, as `cargo build` / `cargo test` do by default): a process abort (stack overflow) is a totality violation.")
 
+# eighth round
+_EXTRA8 = {
+    "C01": " Eighth round: the tail-steered signer also steers coefficients of s1 (the half the verifier recomputes) beyond six standard "
+           "deviations.",
+    "C03": " Eighth round: transform-domain residual patterns: s2 = 1 and h = c - intt(T) (inverse computed by the harness in the crate's "
+           "slot order) make the vector that verify inverse-transforms exactly T, for square waves of period 2..256 in both phases, noisy "
+           "variants, constants and saws.",
+    "C04": " Eighth round: COMPLETE scripted candidates: every sample of the first two key candidates is dictated through the generator: "
+           "f' = f + two small changes such that f' vanishes modulo q at one chosen slot of the crate's NTT (slots 0,1,2,n/2-1,n/2,n-3..n-1 "
+           "and random ones), then the valid key's own (f,g); a correct generator discards the first and returns the second.",
+    "C05": " Eighth round: one signature per Falcon-1024 key under a wide-candidate generator stream (norm rejections and GENUINE "
+           "compression failures, which the failpoint cannot reproduce).",
+    "C06": " Eighth round: every string is offered twice in a row.",
+    "C07": " Eighth round: every unary run length (0..95) at every bit offset (k zero coefficients in front), low parts {0,1,127}, both signs, "
+           "alone, twice in a row and inside a production-size vector.",
+    "C08": " Eighth round: generator windows with constant content (0x00, 0xff) besides random content.",
+}
+for _k, _v in _EXTRA8.items():
+    CHECKS[_k]["rule"] += _v
+
 NOT_APPLICABLE = {}
 
 ENGINES = [
